@@ -211,6 +211,11 @@ func (s *AtomVisitor) ExitOC_Variable(ctx *parser.OC_VariableContext) {
 	}
 }
 
+// A shortest-path pattern in expression position has no representation in the model.
+func (s *AtomVisitor) EnterOC_ShortestPathPattern(ctx *parser.OC_ShortestPathPatternContext) {
+	s.newUnsupportedRuleError(ctx)
+}
+
 func (s *AtomVisitor) EnterOC_FunctionInvocation(ctx *parser.OC_FunctionInvocationContext) {
 	s.ctx.Enter(NewFunctionInvocationVisitor(ctx))
 }
